@@ -1230,15 +1230,36 @@ static void run_script(FILE* in) {
             if (ex) { lid = tok[3]; C.lang = lang_by_id(lid); if (!C.lang) continue; hr = reg(tok[4]); C.op = OP_DECODEX; }
             else { hr = reg(tok[3]); C.op = OP_DECODE; C.want_lang = !(nt > 4 && !strcmp(tok[4], "nolang")); }
             const uint8_t* s = sregs[sr].p; size_t n = sregs[sr].n;
-            prepare_nfkd(s);
-            uint8_t* gp = guard_place(s, n + 1);
+            /* "rep=<N>": the (ASCII) register content repeated up to a total length of N bytes - strings beyond 2^31 and
+               2^32 bytes ("any length"); the event carries the head of the string, which is all the decoders may look at */
+            size_t big = 0; uint8_t* bigbuf = NULL;
+            for (int q = 3; q < nt; ++q) if (!strncmp(tok[q], "rep=", 4)) big = (size_t)strtoull(tok[q] + 4, NULL, 10);
+            if (big && n) {
+                bool ascii = true; for (size_t q = 0; q < n; ++q) if (s[q] >= 0x80) ascii = false;
+                bigbuf = ascii ? mmap(NULL, big + 1, PROT_READ | PROT_WRITE, MAP_PRIVATE | MAP_ANONYMOUS | MAP_NORESERVE, -1, 0) : MAP_FAILED;
+                if (bigbuf == MAP_FAILED) continue;
+                size_t filled = big < n ? big : n;
+                memcpy(bigbuf, s, filled);
+                while (filled < big) { size_t c = big - filled < filled ? big - filled : filled; memcpy(bigbuf + filled, bigbuf, c); filled += c; }
+                bigbuf[big] = 0;
+            }
+            if (bigbuf) { uint8_t head[2001]; size_t hn = big < 2000 ? big : 2000; memcpy(head, bigbuf, hn); head[hn] = 0; prepare_nfkd(head); }
+            else prepare_nfkd(s);
+            uint8_t* gp = bigbuf ? bigbuf : guard_place(s, n + 1);
             C.str = (const char*)gp; nfkd_for = C.str;
             fprintf(out, "{\"e\":\"Begin\",\"op\":\"%s\",\"coin\":%d,\"lang\":\"%s\",\"wantlang\":%s,\"sreg\":%d,\"fail\":%u", ex ? "DecodeX" : "Decode", (int)C.coin,
-                lid, C.want_lang ? "true" : "false", sr, env.fail & 0xffff);
-            emit_bytes("str", s, n > EVBUF ? EVBUF : n); fprintf(out, ",\"len\":%zu", n); eol();
+                lid, C.want_lang ? "true" : "false", bigbuf ? NREG - 1 : sr, env.fail & 0xffff);
+            if (bigbuf) { emit_bytes("str", bigbuf, big > EVBUF ? EVBUF : big); fprintf(out, ",\"len\":%zu", big > (1u << 30) ? (size_t)(1u << 30) : big); }
+            else { emit_bytes("str", s, n > EVBUF ? EVBUF : n); fprintf(out, ",\"len\":%zu", n); }
+            eol();
             needles_text(nfkd_prepared, nfkd_prepared_n < 1000 ? nfkd_prepared_n : 1000);
             api_call(true);
-            bool intact = memcmp(gp, s, n + 1) == 0;
+            bool intact;
+            if (bigbuf) {
+                intact = bigbuf[big] == 0 && memcmp(bigbuf, s, big < n ? big : n) == 0
+                         && (big <= n || memcmp(bigbuf, bigbuf + n, big - n) == 0);      /* still periodic with the pattern */
+                munmap(bigbuf, big + 1);
+            } else intact = memcmp(gp, s, n + 1) == 0;
             if (C.st == POLYSEED_OK && C.seed_out) {
                 /* second scan with the decoded seed's own values */
                 needles_seed(C.seed_out, C.coin);
